@@ -131,7 +131,8 @@ def container_method(I, fn, args, kwargs):
     if name in I_MUTATORS and id(obj) not in I.local_ids:
         I.writes.append(dict(kind="container", target=type(obj).__name__, attr=name, shared=True,
                              where="<call>", line=0))
-        raise Unsupported(f"mutation ({name}) of a container not allocated in this call")
+        from .values import FrameViolation
+        raise FrameViolation(f"mutation ({name}) of a shared {type(obj).__name__} that outlives the call")
     try:
         r = fn(*args, **kwargs)
     except Exception as ex:  # noqa: BLE001
@@ -696,6 +697,9 @@ def m_abs(I, v):
 
 def m_sorted(I, it, key=None, reverse=False):
     items = I.iterate(it)
+    if key is None and items and all(isinstance(x, SObj) and isinstance(payload(x), str) for x in items):
+        # instances of the repo's str subclasses with concrete text: ordered as their text (Base.__lt__, C16)
+        return I.alloc(sorted(items, key=lambda x: payload(x), reverse=reverse))
     if any(deep_sym(x) for x in items):
         raise Unsupported("sorted() over symbolic items")
     if key is not None and not callable(key):
